@@ -1003,7 +1003,17 @@ func callBuiltin(caller *frame, callpos token.Pos, fn *ssa.Builtin, args []value
 		if eng != nil {
 			eng.checkFrozenAppend(args[0].([]value), len(args[1].([]value)))
 		}
-		return append(args[0].([]value), args[1].([]value)...)
+		// gosym: struct/array elements are stored inline in a Go slice, so the
+		// appended elements must be copies (upstream aliased them).
+		src := args[1].([]value)
+		dst := args[0].([]value)
+		for _, x := range src {
+			dst = append(dst, copyInline(x))
+		}
+		if len(src) == 0 && dst == nil && args[1].([]value) != nil {
+			return dst
+		}
+		return dst
 
 	case "copy": // copy([]T, []T) int or copy([]byte, string) int
 		src := args[1]
@@ -1017,7 +1027,30 @@ func callBuiltin(caller *frame, callpos token.Pos, fn *ssa.Builtin, args []value
 		if eng != nil {
 			eng.checkFrozenCopy(args[0].([]value), len(src.([]value)))
 		}
-		return copy(args[0].([]value), src.([]value))
+		{
+			d, sv := args[0].([]value), src.([]value)
+			n := len(sv)
+			if len(d) < n {
+				n = len(d)
+			}
+			if n > 0 && len(sv) > 0 {
+				if _, isStruct := sv[0].(structure); isStruct {
+					tmp := make([]value, n)
+					for i := 0; i < n; i++ {
+						tmp[i] = copyInline(sv[i])
+					}
+					return copy(d, tmp)
+				}
+				if _, isArr := sv[0].(array); isArr {
+					tmp := make([]value, n)
+					for i := 0; i < n; i++ {
+						tmp[i] = copyInline(sv[i])
+					}
+					return copy(d, tmp)
+				}
+			}
+			return copy(d, sv)
+		}
 
 	case "close": // close(chan T)
 		close(args[0].(chan value))
